@@ -379,7 +379,7 @@ Qed.
 (* ---------- files ---------- *)
 
 Definition file_ok (fb : bytes) : Prop :=
-  bytes_ok fb = true /\ 24 <= zlen fb < 16777215 /\
+  bytes_ok fb = true /\ 24 <= zlen fb /\
   exists d0, forall d, (d0 <= d)%nat -> forall rest,
     exists h kids, parse_file d 255 (fb ++ rest) = Ok (Some (NFile h fb kids), 255) /\
       f_ext h = zlen fb /\ f_attr h = rd 19 1 fb /\
@@ -885,7 +885,7 @@ Proof.
 Qed.
 
 Definition file_ok_at (d : nat) (fb : bytes) : Prop :=
-  bytes_ok fb = true /\ 24 <= zlen fb < 16777215 /\
+  bytes_ok fb = true /\ 24 <= zlen fb /\
   forall rest,
     exists h kids, parse_file d 255 (fb ++ rest) = Ok (Some (NFile h fb kids), 255) /\
       f_ext h = zlen fb /\ f_attr h = rd 19 1 fb /\
@@ -1081,23 +1081,53 @@ Lemma le2' v : zlen (le_enc 2 v) = 2. Proof. exact (zlen_le_enc 2 v). Qed.
 Lemma le4' v : zlen (le_enc 4 v) = 4. Proof. exact (zlen_le_enc 4 v). Qed.
 Lemma le8' v : zlen (le_enc 8 v) = 8. Proof. exact (zlen_le_enc 8 v). Qed.
 
-Lemma zlen_fv_header zero g len attrs ck reserved rev count bsize :
-  zlen zero = 16 -> zlen g = 16 ->
-  zlen (fv_header zero g len attrs ck reserved rev count bsize) = 72.
+Lemma zlen_blocks_bytes more : zlen (blocks_bytes more) = 8 * Z.of_nat (length more).
 Proof.
-  intros Lz Lg. unfold fv_header. rewrite !zlen_app, Lz, Lg, !le8', !le4', !le2', zlen_zrepeat by lia.
-  reflexivity.
+  induction more as [|[c s] r IH]; [reflexivity|].
+  cbn [blocks_bytes length]. rewrite !zlen_app, !le4', IH. lia.
 Qed.
 
-Lemma fv_header_fields zero g len attrs ck reserved rev count bsize tail :
-  zlen zero = 16 -> zlen g = 16 -> 0 <= len < 2 ^ 64 -> 0 <= attrs < 2 ^ 32 -> 0 <= ck < 65536 ->
-  let b := fv_header zero g len attrs ck reserved rev count bsize ++ tail in
-  sub 0 16 b = zero /\ sub 16 16 b = g /\ rd 32 8 b = len /\ rd 40 4 b = 1213613663 /\
-  rd 44 4 b = attrs /\ rd 48 2 b = 72 /\ rd 50 2 b = ck /\ rd 52 2 b = 0 /\
-  rd 54 1 b = reserved /\ rd 55 1 b = rev /\
-  zskipn 56 b = le_enc 4 count ++ le_enc 4 bsize ++ zrepeat 0 8 ++ tail.
+Lemma bytes_ok_blocks_bytes more : bytes_ok (blocks_bytes more) = true.
 Proof.
-  intros Lz Lg Hlen Hat Hck b. unfold b, fv_header. rewrite <- !app_assoc.
+  induction more as [|[c s] r IH]; [reflexivity|].
+  cbn [blocks_bytes]. rewrite !bytes_ok_app, !le_enc_ok, IH. reflexivity.
+Qed.
+
+Lemma fv_hlen_ge more : 72 <= fv_hlen more.
+Proof. unfold fv_hlen. lia. Qed.
+
+Lemma fv_hlen_mod8 more : fv_hlen more mod 8 = 0.
+Proof.
+  unfold fv_hlen. replace (72 + 8 * Z.of_nat (length more)) with ((9 + Z.of_nat (length more)) * 8) by lia.
+  apply Z.mod_mul. lia.
+Qed.
+
+Lemma fv_hlen_even more : Z.even (fv_hlen more) = true.
+Proof.
+  unfold fv_hlen. replace (72 + 8 * Z.of_nat (length more)) with (2 * (36 + 4 * Z.of_nat (length more))) by lia.
+  apply Z.even_mul.
+Qed.
+
+Lemma zlen_fv_header zero g len attrs ck eo reserved rev count bsize more :
+  zlen zero = 16 -> zlen g = 16 ->
+  zlen (fv_header zero g len attrs ck eo reserved rev count bsize more) = fv_hlen more.
+Proof.
+  intros Lz Lg. unfold fv_header, fv_hlen.
+  rewrite !zlen_app, Lz, Lg, !le8', !le4', !le2', zlen_blocks_bytes, zlen_zrepeat by lia.
+  change (zlen [95; 70; 86; 72]) with 4. change (zlen [reserved; rev]) with 2. lia.
+Qed.
+
+Lemma fv_header_fields zero g len attrs ck eo reserved rev count bsize more tail :
+  zlen zero = 16 -> zlen g = 16 -> 0 <= len < 2 ^ 64 -> 0 <= attrs < 2 ^ 32 -> 0 <= ck < 65536 ->
+  0 <= eo < 65536 -> fv_hlen more < 65536 ->
+  let b := fv_header zero g len attrs ck eo reserved rev count bsize more ++ tail in
+  sub 0 16 b = zero /\ sub 16 16 b = g /\ rd 32 8 b = len /\ rd 40 4 b = 1213613663 /\
+  rd 44 4 b = attrs /\ rd 48 2 b = fv_hlen more /\ rd 50 2 b = ck /\ rd 52 2 b = eo /\
+  rd 54 1 b = reserved /\ rd 55 1 b = rev /\
+  zskipn 56 b = le_enc 4 count ++ le_enc 4 bsize ++ blocks_bytes more ++ zrepeat 0 8 ++ tail.
+Proof.
+  intros Lz Lg Hlen Hat Hck Heo Hhl b. pose proof (fv_hlen_ge more) as Hhg.
+  unfold b, fv_header. rewrite <- !app_assoc.
   repeat split.
   - apply sub_app_here; auto.
   - rewrite (sub_app_skip _ _ 16 16 16) by (auto; lia). change (16 - 16) with 0. apply sub_app_here; auto.
@@ -1118,7 +1148,7 @@ Proof.
     rewrite (rd_app_skip _ _ 16 2 8) by (try apply le8'; lia). change (16 - 8) with 8.
     rewrite (rd_app_skip [95; 70; 86; 72] _ 8 2 4) by (try reflexivity; lia). change (8 - 4) with 4.
     rewrite (rd_app_skip _ _ 4 2 4) by (try apply le4'; lia). change (4 - 4) with 0.
-    rewrite rd_app_here by apply le2'. reflexivity.
+    rewrite rd_app_here by apply le2'. apply le_dec_enc. change (256 ^ Z.of_nat 2) with 65536. lia.
   - rewrite (rd_app_skip _ _ 50 2 16) by (auto; lia). change (50 - 16) with 34.
     rewrite (rd_app_skip _ _ 34 2 16) by (auto; lia). change (34 - 16) with 18.
     rewrite (rd_app_skip _ _ 18 2 8) by (try apply le8'; lia). change (18 - 8) with 10.
@@ -1133,7 +1163,7 @@ Proof.
     rewrite (rd_app_skip _ _ 8 2 4) by (try apply le4'; lia). change (8 - 4) with 4.
     rewrite (rd_app_skip _ _ 4 2 2) by (try apply le2'; lia). change (4 - 2) with 2.
     rewrite (rd_app_skip _ _ 2 2 2) by (try apply le2'; lia). change (2 - 2) with 0.
-    rewrite rd_app_here by apply le2'. reflexivity.
+    rewrite rd_app_here by apply le2'. apply le_dec_enc. change (256 ^ Z.of_nat 2) with 65536. lia.
   - rewrite (rd_app_skip _ _ 54 1 16) by (auto; lia). change (54 - 16) with 38.
     rewrite (rd_app_skip _ _ 38 1 16) by (auto; lia). change (38 - 16) with 22.
     rewrite (rd_app_skip _ _ 22 1 8) by (try apply le8'; lia). change (22 - 8) with 14.
@@ -1152,43 +1182,64 @@ Proof.
     rewrite (rd_app_skip _ _ 5 1 2) by (try apply le2'; lia). change (5 - 2) with 3.
     rewrite (rd_app_skip _ _ 3 1 2) by (try apply le2'; lia). change (3 - 2) with 1.
     cbn [app]. rewrite rd_cons_skip by lia. apply rd_cons_here.
-  - set (fixed := zero ++ g ++ le_enc 8 len ++ [95; 70; 86; 72] ++ le_enc 4 attrs ++ le_enc 2 72 ++
-                  le_enc 2 ck ++ le_enc 2 0 ++ [reserved; rev]).
+  - set (fixed := zero ++ g ++ le_enc 8 len ++ [95; 70; 86; 72] ++ le_enc 4 attrs ++ le_enc 2 (fv_hlen more) ++
+                  le_enc 2 ck ++ le_enc 2 eo ++ [reserved; rev]).
     assert (L : zlen fixed = 56).
     { unfold fixed. rewrite !zlen_app, Lz, Lg, le8', le4', !le2'. reflexivity. }
-    replace (zero ++ g ++ le_enc 8 len ++ [95; 70; 86; 72] ++ le_enc 4 attrs ++ le_enc 2 72 ++
-             le_enc 2 ck ++ le_enc 2 0 ++ [reserved; rev] ++ le_enc 4 count ++ le_enc 4 bsize ++ zrepeat 0 8 ++ tail)
-      with (fixed ++ le_enc 4 count ++ le_enc 4 bsize ++ zrepeat 0 8 ++ tail)
+    replace (zero ++ g ++ le_enc 8 len ++ [95; 70; 86; 72] ++ le_enc 4 attrs ++ le_enc 2 (fv_hlen more) ++
+             le_enc 2 ck ++ le_enc 2 eo ++ [reserved; rev] ++ le_enc 4 count ++ le_enc 4 bsize ++
+             blocks_bytes more ++ zrepeat 0 8 ++ tail)
+      with (fixed ++ le_enc 4 count ++ le_enc 4 bsize ++ blocks_bytes more ++ zrepeat 0 8 ++ tail)
       by (unfold fixed; rewrite <- !app_assoc; reflexivity).
     rewrite <- L. apply zskipn_app_exact.
 Qed.
 
-Lemma parse_blocks_one count bsize tail n : 0 <= count < 2 ^ 32 -> 0 <= bsize < 2 ^ 32 ->
-  (count =? 0) && (bsize =? 0) = false -> (2 <= n)%nat ->
-  parse_blocks n (le_enc 4 count ++ le_enc 4 bsize ++ zrepeat 0 8 ++ tail) = Ok [(count, bsize)].
+Definition block_ok (cs : Z * Z) : bool :=
+  (0 <=? fst cs) && (fst cs <? 2 ^ 32) && (0 <=? snd cs) && (snd cs <? 2 ^ 32) &&
+  negb ((fst cs =? 0) && (snd cs =? 0)).
+
+Lemma parse_blocks_list more tail n : forallb block_ok more = true -> (length more + 1 <= n)%nat ->
+  parse_blocks n (blocks_bytes more ++ zrepeat 0 8 ++ tail) = Ok more.
 Proof.
-  intros Hc Hs Hnz Hn. destruct n as [|[|n]]; try lia.
-  pose proof (zlen_nonneg tail).
-  cbn [parse_blocks]. rewrite !zlen_app, !le4', zlen_zrepeat by lia.
-  replace (4 + (4 + (8 + zlen tail)) <? 8) with false by lia.
-  rewrite rd_app_here by apply le4'.
-  rewrite (rd_app_skip _ _ 4 4 4) by (try apply le4'; lia). change (4 - 4) with 0.
-  rewrite rd_app_here by apply le4'.
-  rewrite !le_dec_enc by (change (256 ^ Z.of_nat 4) with (2 ^ 32); lia).
-  rewrite Hnz.
-  replace (zskipn 8 (le_enc 4 count ++ le_enc 4 bsize ++ zrepeat 0 8 ++ tail)) with (zrepeat 0 8 ++ tail).
-  2:{ rewrite app_assoc. symmetry.
-      assert (L : zlen (le_enc 4 count ++ le_enc 4 bsize) = 8) by (rewrite zlen_app, !le4'; reflexivity).
-      rewrite <- L. apply zskipn_app_exact. }
-  cbn [parse_blocks].
-  change (zrepeat 0 8) with ([0; 0; 0; 0] ++ [0; 0; 0; 0]). rewrite <- app_assoc.
-  rewrite !zlen_app. change (zlen [0; 0; 0; 0]) with 4.
-  replace (4 + (4 + zlen tail) <? 8) with false by lia.
-  rewrite (rd_app_here [0; 0; 0; 0]) by reflexivity.
-  rewrite (rd_app_skip [0; 0; 0; 0] _ 4 4 4) by (try reflexivity; lia). change (4 - 4) with 0.
-  rewrite (rd_app_here [0; 0; 0; 0]) by reflexivity.
-  change (le_dec [0; 0; 0; 0]) with 0. change ((0 =? 0) && (0 =? 0)) with true. cbv iota.
-  cbn [bind]. reflexivity.
+  revert n. induction more as [|[c s] r IH]; intros n Hok Hn.
+  - destruct n as [|n]; [cbn [length] in Hn; lia|].
+    pose proof (zlen_nonneg tail).
+    cbn [blocks_bytes app parse_blocks].
+    change (zrepeat 0 8) with ([0; 0; 0; 0] ++ [0; 0; 0; 0]). rewrite <- app_assoc.
+    rewrite !zlen_app. change (zlen [0; 0; 0; 0]) with 4.
+    replace (4 + (4 + zlen tail) <? 8) with false by lia.
+    rewrite (rd_app_here [0; 0; 0; 0]) by reflexivity.
+    rewrite (rd_app_skip [0; 0; 0; 0] _ 4 4 4) by (try reflexivity; lia). change (4 - 4) with 0.
+    rewrite (rd_app_here [0; 0; 0; 0]) by reflexivity.
+    change (le_dec [0; 0; 0; 0]) with 0. reflexivity.
+  - destruct n as [|n]; [cbn [length] in Hn; lia|].
+    cbn [forallb] in Hok. apply andb_true_iff in Hok as [Hcs Hr].
+    unfold block_ok in Hcs. cbn [fst snd] in Hcs.
+    pose proof (zlen_nonneg tail). pose proof (zlen_nonneg (blocks_bytes r)).
+    cbn [blocks_bytes parse_blocks]. rewrite <- !app_assoc.
+    rewrite !zlen_app, !le4', zlen_zrepeat by lia.
+    replace (4 + (4 + (zlen (blocks_bytes r) + (8 + zlen tail))) <? 8) with false by lia.
+    rewrite rd_app_here by apply le4'.
+    rewrite (rd_app_skip _ _ 4 4 4) by (try apply le4'; lia). change (4 - 4) with 0.
+    rewrite rd_app_here by apply le4'.
+    rewrite !le_dec_enc by (change (256 ^ Z.of_nat 4) with (2 ^ 32); lia).
+    replace ((c =? 0) && (s =? 0)) with false by lia.
+    replace (zskipn 8 (le_enc 4 c ++ le_enc 4 s ++ blocks_bytes r ++ zrepeat 0 8 ++ tail))
+      with (blocks_bytes r ++ zrepeat 0 8 ++ tail).
+    2:{ rewrite (app_assoc (le_enc 4 c)). symmetry.
+        assert (L : zlen (le_enc 4 c ++ le_enc 4 s) = 8) by (rewrite zlen_app, !le4'; reflexivity).
+        rewrite <- L. apply zskipn_app_exact. }
+    rewrite IH by (auto; cbn [length] in Hn; lia). reflexivity.
+Qed.
+
+Lemma parse_blocks_one count bsize more tail n : 0 <= count < 2 ^ 32 -> 0 <= bsize < 2 ^ 32 ->
+  (count =? 0) && (bsize =? 0) = false -> forallb block_ok more = true -> (length more + 2 <= n)%nat ->
+  parse_blocks n (le_enc 4 count ++ le_enc 4 bsize ++ blocks_bytes more ++ zrepeat 0 8 ++ tail) =
+    Ok ((count, bsize) :: more).
+Proof.
+  intros Hc Hs Hnz Hm Hn.
+  apply (parse_blocks_list ((count, bsize) :: more) tail n); [|cbn [length]; lia].
+  cbn [forallb]. rewrite Hm. unfold block_ok. cbn [fst snd]. rewrite Hnz. lia.
 Qed.
 
 (* ---------- volumes: header fix-ups are the identity on a well-formed header ---------- *)
@@ -1236,6 +1287,211 @@ Definition vol_ok (vb : bytes) : Prop :=
 
 (* ---------- R9: a volume of files ---------- *)
 
+(* the region between the 72-byte header and the first file: nothing (eo = 0), or an extended
+   header at offset 72 followed by the bytes up to the next 8-byte boundary *)
+Definition ext_ok (hl eo : Z) (ext : bytes) : Prop :=
+  (eo = 0 /\ ext = []) \/
+  (eo = hl /\ exists name edata gap, ext = ext_bytes name edata gap /\ zlen name = 16 /\
+     bytes_ok name = true /\ bytes_ok edata = true /\ bytes_ok gap = true /\
+     20 + zlen edata < 2 ^ 32 /\ zlen gap < 8 /\ (hl + zlen ext) mod 8 = 0).
+
+Theorem vol_ok_files_x zero g attrs reserved rev count bsize more eo ext files free :
+  zlen zero = 16 -> bytes_ok zero = true -> (g = FFS2 \/ g = FFS3) ->
+  0 <= attrs < 2 ^ 32 -> Z.land attrs 2048 <> 0 ->
+  0 <= reserved < 256 -> 0 <= rev < 256 ->
+  0 <= count < 2 ^ 32 -> 0 <= bsize < 2 ^ 32 -> (count =? 0) && (bsize =? 0) = false ->
+  forallb block_ok more = true -> fv_hlen more < 65536 ->
+  ext_ok (fv_hlen more) eo ext ->
+  Forall file_ok files -> files_aligned (fv_hlen more + zlen ext) files = true -> 0 <= free ->
+  fv_hlen more + zlen ext + zlen (flay files) + free < 2 ^ 64 ->
+  vol_ok (vol_bytes_x zero g attrs reserved rev count bsize more eo ext files free).
+Proof.
+  intros Lz Oz Hg Hat Hpol Hres Hrev Hc Hs Hnz Hmore Hhl Hext Hfiles Hal Hfree Hlen.
+  pose proof (zlen_nonneg ext) as Hextn.
+  pose proof (fv_hlen_ge more) as Hhg. pose proof (fv_hlen_mod8 more) as Hh8.
+  set (HL := fv_hlen more) in *.
+  set (D := HL + zlen ext) in *.
+  assert (HD8 : D mod 8 = 0).
+  { destruct Hext as [(-> & ->)|(-> & name & edata & gap & _ & _ & _ & _ & _ & _ & _ & M)]; [|exact M].
+    unfold D. change (zlen (@nil Z)) with 0. rewrite Z.add_0_r. exact Hh8. }
+  assert (Heo : 0 <= eo < 65536) by (destruct Hext as [(-> & _)|(-> & _)]; lia).
+  assert (Oext : bytes_ok ext = true).
+  { destruct Hext as [(_ & ->)|(_ & name & edata & gap & -> & _ & On & Oe & Og' & _)]; [reflexivity|].
+    unfold ext_bytes. rewrite !bytes_ok_app, On, Oe, Og', le_enc_ok. reflexivity. }
+  assert (AD : align8 D = D) by (apply align8_unique; lia).
+  assert (Lg : zlen g = 16) by (destruct Hg as [-> | ->]; reflexivity).
+  assert (Og : bytes_ok g = true) by (destruct Hg as [-> | ->]; reflexivity).
+  assert (Sg : supported_fv g = true) by (destruct Hg as [-> | ->]; reflexivity).
+  pose proof (zlen_nonneg (flay files)) as Hfl.
+  unfold vol_bytes_x. fold HL.
+  set (len := HL + zlen ext + zlen (flay files) + free) in *.
+  set (ck := fv_cksum zero g len attrs eo reserved rev count bsize more).
+  assert (Hck : 0 <= ck < 65536) by (apply Z.mod_pos_bound; lia).
+  set (hdr := fv_header zero g len attrs ck eo reserved rev count bsize more).
+  set (tail := ext ++ flay files ++ zrepeat 255 free).
+  assert (Lh : zlen hdr = HL) by (apply zlen_fv_header; auto).
+  assert (Lt : zlen tail = zlen ext + zlen (flay files) + free) by (unfold tail; rewrite !zlen_app, zlen_zrepeat by lia; lia).
+  assert (Lv : zlen (hdr ++ tail) = len) by (rewrite zlen_app, Lh, Lt; unfold len; lia).
+  assert (Hfb : Forall (fun f => bytes_ok f = true) files)
+    by (eapply Forall_impl; [|exact Hfiles]; intros a (O & _); exact O).
+  assert (Hf24 : Forall (fun f => 24 <= zlen f) files)
+    by (eapply Forall_impl; [|exact Hfiles]; intros a (_ & L & _); lia).
+  replace (hdr ++ ext ++ flay files ++ zrepeat 255 free) with (hdr ++ tail) by reflexivity.
+  split.
+  { rewrite bytes_ok_app. unfold tail. rewrite !bytes_ok_app, Oext, bytes_ok_flay, bytes_ok_zrepeat by (auto; lia).
+    unfold hdr, fv_header. rewrite !bytes_ok_app, Oz, Og, !le_enc_ok, bytes_ok_blocks_bytes, bytes_ok_zrepeat by lia.
+    cbn [bytes_ok forallb]. unfold byte_ok. lia. }
+  split; [lia|].
+  destruct (Forall_file_ok_at files Hfiles) as (d1 & Hd1).
+  exists (S (S d1)). intros d Hd pol rest off rz Hpol0.
+  destruct d as [|[|d]]; try lia.
+  (* ---- parse ---- *)
+  destruct (fv_header_fields zero g len attrs ck eo reserved rev count bsize more (tail ++ rest) Lz Lg
+              ltac:(lia) Hat Hck Heo Hhl) as (F0 & F16 & F32 & F40 & F44 & F48 & F50 & F52 & F54 & F55 & F56).
+  fold hdr in F0, F16, F32, F40, F44, F48, F50, F52, F54, F55, F56.
+  fold HL in F48.
+  rewrite app_assoc in F0, F16, F32, F40, F44, F48, F50, F52, F54, F55, F56.
+  set (data := (hdr ++ tail) ++ rest) in *.
+  pose proof (zlen_nonneg rest) as Hrest.
+  assert (Ld : zlen data = len + zlen rest) by (unfold data; rewrite zlen_app, Lv; reflexivity).
+  assert (Epol : fv_polarity attrs = 255).
+  { unfold fv_polarity. destruct (Z.land attrs 2048 =? 0) eqn:E; [lia|reflexivity]. }
+  assert (Esp : set_polarity pol 255 = Some 255) by (destruct Hpol0 as [-> | ->]; reflexivity).
+  assert (Eparse : exists kids fs en es,
+     parse_fv (S (S d)) pol data off rz =
+       Ok (NVol (mkVol zero g len 1213613663 attrs HL ck eo reserved rev ((count, bsize) :: more) en es D off rz fs)
+                (hdr ++ tail) kids, 255) /\
+     exists kids', asm_elems kids (255, false) = Ok (kids', (255, false)) /\
+       map node_buf kids' = files /\ map node_attr kids' = map (rd 19 1) files).
+  { rewrite parse_fv_S. unfold fv_body. rewrite Ld.
+    replace (len + zlen rest <? 64) with false by lia.
+    rewrite F0, F16, F32, F40, F44, F48, F50, F52, F54, F55, F56.
+    rewrite parse_blocks_one by (auto; unfold HL, fv_hlen in *; lia). cbn [bind].
+    rewrite Epol, Esp.
+    replace (len + zlen rest <? len) with false by lia.
+    replace (len <? 64) with false by lia.
+    (* the data offset: after the header, or after the extended header, rounded up to 8 *)
+    cbv zeta.
+    set (hb := negb (eo =? 0) && (20 <=? len) && (eo <? len - 20)).
+    assert (Edoff : align8 (if hb then eo + (if hb then rd (eo + 16) 4 data else 0) else HL) = D).
+    { destruct Hext as [(-> & ->)|(-> & name & edata & gap & Ee & Ln & _ & _ & _ & Hes & Hg8 & _)].
+      - unfold hb. change (negb (0 =? 0)) with false. cbn [andb]. cbv iota. unfold D.
+        change (zlen (@nil Z)) with 0. rewrite Z.add_0_r. apply align8_unique; lia.
+      - assert (Le : zlen ext = 16 + 4 + zlen edata + zlen gap).
+        { rewrite Ee. unfold ext_bytes. rewrite !zlen_app, Ln, le4'. lia. }
+        pose proof (zlen_nonneg edata). pose proof (zlen_nonneg gap).
+        replace hb with true by (unfold hb, len; lia).
+        assert (Esz : rd (HL + 16) 4 data = 20 + zlen edata).
+        { unfold data, tail. rewrite <- !app_assoc.
+          rewrite (rd_app_skip hdr _ (HL + 16) 4 HL) by (auto; lia). replace (HL + 16 - HL) with 16 by lia.
+          rewrite Ee. unfold ext_bytes. rewrite <- !app_assoc.
+          rewrite (rd_app_skip name _ 16 4 16) by (auto; lia). change (16 - 16) with 0.
+          rewrite rd_app_here by apply le4'. apply le_dec_enc. change (256 ^ Z.of_nat 4) with (2 ^ 32). lia. }
+        rewrite Esz. apply align8_unique; unfold D; lia. }
+    rewrite Edoff.
+    assert (Esub : sub 0 len data = hdr ++ tail) by (unfold data; apply sub_app_here; exact Lv).
+    rewrite Esub. rewrite Sg. cbn [negb]. cbv iota.
+    assert (LP : zlen (hdr ++ ext) = D) by (rewrite zlen_app, Lh; reflexivity).
+    assert (G1 : D <= zlen (hdr ++ ext) < D + 8) by lia.
+    assert (G2 : zlen (hdr ++ ext) mod 8 = 0) by (rewrite LP; exact HD8).
+    assert (G3 : (length files < Z.to_nat (len + zlen rest) + 1)%nat).
+    { pose proof (zlen_flay_ge files Hf24) as HG. unfold len. unfold bytes in *. lia. }
+    destruct (files_loop_flay d files (Hd1 (S d) ltac:(lia)) free rest (hdr ++ ext) D
+                (Z.to_nat (len + zlen rest) + 1)%nat Hfree ltac:(lia) G1 G2 G3)
+      as (kids & fs & El & kids' & Ek & Em & Eattr).
+    rewrite LP in El.
+    replace ((hdr ++ ext) ++ flay files ++ zrepeat 255 free ++ rest) with ((hdr ++ tail) ++ rest) in El
+      by (unfold tail; rewrite <- !app_assoc; reflexivity).
+    replace (D + zlen (flay files) + free) with len in El by (unfold len, D; lia).
+    fold data in El. rewrite El. cbn [bind].
+    eexists kids, fs, _, _. split; [reflexivity|]. exists kids'. auto. }
+  destruct Eparse as (kids & fs & en & es & Ep & kids' & Ek & Em & Eattr).
+  eexists; eexists. split; [exact Ep|]. cbn [v_length]. split; [symmetry; exact Lv|].
+  (* ---- assemble ---- *)
+  intros ffs. rewrite asm_NVol. cbn [fst snd v_attrs]. rewrite Epol.
+  change (set_polarity 255 255) with (Some 255). cbv beta iota. rewrite Ek. cbn [bind].
+  unfold vol_asm. unfold asm_vol.
+  cbn [v_length v_blocks v_dataoff v_hdrlen v_resizable v_guid].
+  rewrite Sg. cbn [negb]. rewrite andb_false_r. cbv beta iota.
+  rewrite Lv. replace (len <? len) with false by lia. replace (D <? HL) with false by lia. cbv iota.
+  replace (len <? D) with false by (unfold len, D; lia).
+  rewrite slice_ok by (unfold len, D in *; lia). rewrite Z.sub_0_r. cbn [of_opt bind].
+  assert (LP : zlen (hdr ++ ext) = D) by (rewrite zlen_app, Lh; reflexivity).
+  assert (Esl : sub 0 D (hdr ++ tail) = hdr ++ ext).
+  { unfold tail. rewrite app_assoc. apply sub_app_here. exact LP. }
+  rewrite Esl.
+  (* placing the files *)
+  assert (Hpos : Forall (fun k => 0 < zlen (node_buf k)) kids').
+  { rewrite Forall_forall. intros k Hk. apply (in_map node_buf) in Hk. rewrite Em in Hk.
+    rewrite Forall_forall in Hf24. specialize (Hf24 _ Hk). lia. }
+  pose proof (zlen_play_le files D ltac:(lia)) as Hple. rewrite AD, Z.sub_diag in Hple.
+  assert (PP : place_files 255 (if rz then None else Some len) (hdr ++ ext) (zlen (hdr ++ ext)) kids' =
+               Ok ((hdr ++ ext) ++ play (zlen (hdr ++ ext)) (map node_buf kids'))).
+  { apply place_files_play; auto.
+    - rewrite LP, Em, AD. exact Hal.
+    - rewrite Em. exact Eattr.
+    - rewrite LP, Em. destruct rz; [exact I|]. unfold len, D in *. lia. }
+  rewrite LP, Em in PP. rewrite PP. cbn [bind].
+  set (b1 := (hdr ++ ext) ++ play D files).
+  assert (Lb1 : zlen b1 = D + zlen (play D files)) by (unfold b1; rewrite zlen_app, LP; reflexivity).
+  pose proof (zlen_nonneg (play D files)) as Hpl.
+  replace ((len <? zlen b1) && negb rz) with false by (unfold len, D in *; lia).
+  replace (len <? zlen b1) with false by (unfold len, D in *; lia). cbn [bind].
+  (* erased fill: back to the original bytes *)
+  assert (Eb2 : (if zlen b1 <? len then b1 ++ zrepeat 255 (len - zlen b1) else b1) = hdr ++ tail).
+  { pose proof (play_flay files (hdr ++ ext) free Hfree) as PF. rewrite LP in PF.
+    rewrite AD, Z.sub_diag in PF. change (zrepeat 255 0) with (@nil Z) in PF.
+    cbn [app] in PF. fold b1 in PF.
+    replace (D + zlen (flay files) + free) with len in PF by (unfold len, D; lia).
+    replace ((hdr ++ ext) ++ flay files ++ zrepeat 255 free) with (hdr ++ tail) in PF
+      by (unfold tail; rewrite <- !app_assoc; reflexivity).
+    rewrite PF. destruct (zlen b1 <? len) eqn:E; [reflexivity|].
+    replace (len - zlen b1) with 0 by (unfold len, D in *; lia). change (zrepeat 255 0) with (@nil Z). rewrite app_nil_r. reflexivity. }
+  rewrite Eb2. rewrite Lv.
+  replace (len <? 40) with false by (unfold len; lia). replace (len <? 60) with false by (unfold len; lia).
+  change (false && bytes_eqb g FFS2) with false. cbv iota.
+  (* the three header writes *)
+  set (A32 := zero ++ g).
+  set (A50 := A32 ++ le_enc 8 len ++ [95; 70; 86; 72] ++ le_enc 4 attrs ++ le_enc 2 HL).
+  set (A56 := A50 ++ le_enc 2 ck ++ le_enc 2 eo ++ [reserved; rev]).
+  set (R56 := le_enc 4 bsize ++ blocks_bytes more ++ zrepeat 0 8 ++ tail).
+  assert (L32 : zlen A32 = 32) by (unfold A32; rewrite zlen_app, Lz, Lg; reflexivity).
+  assert (L50 : zlen A50 = 50) by (unfold A50; rewrite !zlen_app, L32, le8', le4', le2'; reflexivity).
+  assert (L56 : zlen A56 = 56) by (unfold A56; rewrite !zlen_app, L50, !le2'; reflexivity).
+  assert (E32 : hdr ++ tail = A32 ++ le_enc 8 len ++
+                  ([95; 70; 86; 72] ++ le_enc 4 attrs ++ le_enc 2 HL ++ le_enc 2 ck ++ le_enc 2 eo ++
+                   [reserved; rev] ++ le_enc 4 count ++ R56)).
+  { unfold hdr, fv_header, A32, R56. rewrite <- !app_assoc. reflexivity. }
+  assert (E56 : hdr ++ tail = A56 ++ le_enc 4 count ++ R56).
+  { unfold hdr, fv_header, A56, A50, A32, R56. rewrite <- !app_assoc. reflexivity. }
+  assert (E50 : forall c, fv_header zero g len attrs c eo reserved rev count bsize more ++ tail =
+                          A50 ++ le_enc 2 c ++ (le_enc 2 eo ++ [reserved; rev] ++ le_enc 4 count ++ R56)).
+  { intros c. unfold fv_header, A50, A32, R56. rewrite <- !app_assoc. reflexivity. }
+  assert (S32 : splice 32 (le_enc 8 len) (hdr ++ tail) = hdr ++ tail).
+  { rewrite E32 at 1. rewrite <- L32. rewrite splice_mid by reflexivity. symmetry. exact E32. }
+  rewrite S32. rewrite ?Lv. replace (len <? 60) with false by (unfold len; lia). cbv beta iota.
+  assert (S56 : splice 56 (le_enc 4 count) (hdr ++ tail) = hdr ++ tail).
+  { rewrite E56 at 1. rewrite <- L56. rewrite splice_mid by reflexivity. symmetry. exact E56. }
+  rewrite S56.
+  assert (S50 : splice 50 [0; 0] (hdr ++ tail) =
+                fv_header zero g len attrs 0 eo reserved rev count bsize more ++ tail).
+  { unfold hdr. rewrite (E50 ck), (E50 0). rewrite <- L50.
+    change [0; 0] with (le_enc 2 0) at 1. apply splice_mid. rewrite !le2'. reflexivity. }
+  rewrite S50.
+  set (hdr0 := fv_header zero g len attrs 0 eo reserved rev count bsize more).
+  assert (Lh0 : zlen hdr0 = HL) by (apply zlen_fv_header; auto).
+  rewrite slice_ok by (rewrite ?zlen_app, ?Lh0; pose proof (zlen_nonneg tail); lia).
+  rewrite Z.sub_0_r.
+  assert (Esl0 : sub 0 HL (hdr0 ++ tail) = hdr0) by (apply sub_app_here; exact Lh0).
+  rewrite Esl0.
+  unfold HL at 1. rewrite fv_hlen_even. cbn [negb]. cbv iota.
+  change ((0 - sum16 hdr0) mod 65536) with ck.
+  assert (S50' : splice 50 (le_enc 2 ck) (hdr0 ++ tail) = hdr ++ tail).
+  { unfold hdr0, hdr. rewrite (E50 0), (E50 ck). rewrite <- L50. apply splice_mid. rewrite !le2'. reflexivity. }
+  rewrite S50'. cbn [bind]. cbv beta iota. cbn [bind fst snd].
+  eexists; eexists. split; [reflexivity|exact Epol].
+Qed.
+
 Theorem vol_ok_files zero g attrs reserved rev count bsize files free :
   zlen zero = 16 -> bytes_ok zero = true -> (g = FFS2 \/ g = FFS3) ->
   0 <= attrs < 2 ^ 32 -> Z.land attrs 2048 <> 0 ->
@@ -1245,154 +1501,121 @@ Theorem vol_ok_files zero g attrs reserved rev count bsize files free :
   72 + zlen (flay files) + free < 2 ^ 64 ->
   vol_ok (vol_bytes zero g attrs reserved rev count bsize files free).
 Proof.
-  intros Lz Oz Hg Hat Hpol Hres Hrev Hc Hs Hnz Hfiles Hal Hfree Hlen.
-  assert (Lg : zlen g = 16) by (destruct Hg as [-> | ->]; reflexivity).
-  assert (Og : bytes_ok g = true) by (destruct Hg as [-> | ->]; reflexivity).
-  assert (Sg : supported_fv g = true) by (destruct Hg as [-> | ->]; reflexivity).
-  pose proof (zlen_nonneg (flay files)) as Hfl.
-  unfold vol_bytes.
-  set (len := 72 + zlen (flay files) + free) in *.
-  set (ck := fv_cksum zero g len attrs reserved rev count bsize).
-  assert (Hck : 0 <= ck < 65536) by (apply Z.mod_pos_bound; lia).
-  set (hdr := fv_header zero g len attrs ck reserved rev count bsize).
-  set (tail := flay files ++ zrepeat 255 free).
-  assert (Lh : zlen hdr = 72) by (apply zlen_fv_header; auto).
-  assert (Lt : zlen tail = zlen (flay files) + free) by (unfold tail; rewrite zlen_app, zlen_zrepeat by lia; reflexivity).
-  assert (Lv : zlen (hdr ++ tail) = len) by (rewrite zlen_app, Lh, Lt; unfold len; lia).
-  assert (Hfb : Forall (fun f => bytes_ok f = true) files)
-    by (eapply Forall_impl; [|exact Hfiles]; intros a (O & _); exact O).
-  assert (Hf24 : Forall (fun f => 24 <= zlen f) files)
-    by (eapply Forall_impl; [|exact Hfiles]; intros a (_ & L & _); lia).
-  replace (hdr ++ flay files ++ zrepeat 255 free) with (hdr ++ tail) by reflexivity.
-  split.
-  { rewrite bytes_ok_app. unfold tail. rewrite bytes_ok_app, bytes_ok_flay, bytes_ok_zrepeat by (auto; lia).
-    unfold hdr, fv_header. rewrite !bytes_ok_app, Oz, Og, !le_enc_ok, bytes_ok_zrepeat by lia.
-    cbn [bytes_ok forallb]. unfold byte_ok. lia. }
-  split; [lia|].
-  destruct (Forall_file_ok_at files Hfiles) as (d1 & Hd1).
-  exists (S (S d1)). intros d Hd pol rest off rz Hpol0.
-  destruct d as [|[|d]]; try lia.
-  (* ---- parse ---- *)
-  destruct (fv_header_fields zero g len attrs ck reserved rev count bsize (tail ++ rest) Lz Lg
-              ltac:(lia) Hat Hck) as (F0 & F16 & F32 & F40 & F44 & F48 & F50 & F52 & F54 & F55 & F56).
-  fold hdr in F0, F16, F32, F40, F44, F48, F50, F52, F54, F55, F56.
-  rewrite app_assoc in F0, F16, F32, F40, F44, F48, F50, F52, F54, F55, F56.
-  set (data := (hdr ++ tail) ++ rest) in *.
-  pose proof (zlen_nonneg rest) as Hrest.
-  assert (Ld : zlen data = len + zlen rest) by (unfold data; rewrite zlen_app, Lv; reflexivity).
-  assert (Epol : fv_polarity attrs = 255).
-  { unfold fv_polarity. destruct (Z.land attrs 2048 =? 0) eqn:E; [lia|reflexivity]. }
-  assert (Esp : set_polarity pol 255 = Some 255) by (destruct Hpol0 as [-> | ->]; reflexivity).
-  assert (Eparse : exists kids fs,
-     parse_fv (S (S d)) pol data off rz =
-       Ok (NVol (mkVol zero g len 1213613663 attrs 72 ck 0 reserved rev [(count, bsize)] [] 0 72 off rz fs)
-                (hdr ++ tail) kids, 255) /\
-     exists kids', asm_elems kids (255, false) = Ok (kids', (255, false)) /\
-       map node_buf kids' = files /\ map node_attr kids' = map (rd 19 1) files).
-  { rewrite parse_fv_S. unfold fv_body. rewrite Ld.
-    replace (len + zlen rest <? 64) with false by lia.
-    rewrite F0, F16, F32, F40, F44, F48, F50, F52, F54, F55, F56.
-    rewrite parse_blocks_one by (auto; lia). cbn [bind].
-    rewrite Epol, Esp.
-    replace (len + zlen rest <? len) with false by lia.
-    replace (len <? 64) with false by lia.
-    change (negb (0 =? 0)) with false. cbn [andb]. cbv iota.
-    change (align8 72) with 72.
-    assert (Esub : sub 0 len data = hdr ++ tail) by (unfold data; apply sub_app_here; exact Lv).
-    rewrite Esub. rewrite Sg. cbn [negb]. cbv iota.
-    assert (G1 : 72 <= zlen hdr < 72 + 8) by lia.
-    assert (G2 : zlen hdr mod 8 = 0) by (rewrite Lh; reflexivity).
-    assert (G3 : (length files < Z.to_nat (len + zlen rest) + 1)%nat).
-    { pose proof (zlen_flay_ge files Hf24) as HG. unfold len. unfold bytes in *. lia. }
-    destruct (files_loop_flay d files (Hd1 (S d) ltac:(lia)) free rest hdr 72
-                (Z.to_nat (len + zlen rest) + 1)%nat Hfree ltac:(lia) G1 G2 G3)
-      as (kids & fs & El & kids' & Ek & Em & Eattr).
-    rewrite Lh in El.
-    replace (hdr ++ flay files ++ zrepeat 255 free ++ rest) with ((hdr ++ tail) ++ rest) in El
-      by (unfold tail; rewrite <- !app_assoc; reflexivity).
-    replace (72 + zlen (flay files) + free) with len in El by reflexivity.
-    fold data in El. rewrite El. cbn [bind].
-    exists kids, fs. split; [reflexivity|]. exists kids'. auto. }
-  destruct Eparse as (kids & fs & Ep & kids' & Ek & Em & Eattr).
-  eexists; eexists. split; [exact Ep|]. cbn [v_length]. split; [symmetry; exact Lv|].
-  (* ---- assemble ---- *)
-  intros ffs. rewrite asm_NVol. cbn [fst snd v_attrs]. rewrite Epol.
-  change (set_polarity 255 255) with (Some 255). cbv beta iota. rewrite Ek. cbn [bind].
-  unfold vol_asm. unfold asm_vol.
-  cbn [v_length v_blocks v_dataoff v_hdrlen v_resizable v_guid].
-  rewrite Sg. cbn [negb]. rewrite andb_false_r. cbv beta iota.
-  rewrite Lv. replace (len <? len) with false by lia. change (72 <? 72) with false. cbv iota.
-  replace (len <? 72) with false by lia.
-  rewrite slice_ok by lia. change (72 - 0) with 72. cbn [of_opt bind].
-  assert (Esl : sub 0 72 (hdr ++ tail) = hdr) by (apply sub_app_here; exact Lh).
-  rewrite Esl.
-  (* placing the files *)
-  assert (Hpos : Forall (fun k => 0 < zlen (node_buf k)) kids').
-  { rewrite Forall_forall. intros k Hk. apply (in_map node_buf) in Hk. rewrite Em in Hk.
-    rewrite Forall_forall in Hf24. specialize (Hf24 _ Hk). lia. }
-  pose proof (zlen_play_le files 72 ltac:(lia)) as Hple. change (align8 72 - 72) with 0 in Hple.
-  assert (PP : place_files 255 (if rz then None else Some len) hdr (zlen hdr) kids' =
-               Ok (hdr ++ play (zlen hdr) (map node_buf kids'))).
-  { apply place_files_play; auto.
-    - rewrite Lh, Em. exact Hal.
-    - rewrite Em. exact Eattr.
-    - rewrite Lh, Em. destruct rz; [exact I|]. unfold len. lia. }
-  rewrite Lh, Em in PP. rewrite PP. cbn [bind].
-  set (b1 := hdr ++ play 72 files).
-  assert (Lb1 : zlen b1 = 72 + zlen (play 72 files)) by (unfold b1; rewrite zlen_app, Lh; reflexivity).
-  pose proof (zlen_nonneg (play 72 files)) as Hpl.
-  replace ((len <? zlen b1) && negb rz) with false by lia.
-  replace (len <? zlen b1) with false by lia. cbn [bind].
-  (* erased fill: back to the original bytes *)
-  assert (Eb2 : (if zlen b1 <? len then b1 ++ zrepeat 255 (len - zlen b1) else b1) = hdr ++ tail).
-  { pose proof (play_flay files hdr free Hfree) as PF. rewrite Lh in PF.
-    change (align8 72 - 72) with 0 in PF. change (zrepeat 255 0) with (@nil Z) in PF.
-    cbn [app] in PF. change (align8 72) with 72 in PF. fold b1 len in PF. fold tail in PF.
-    rewrite PF. destruct (zlen b1 <? len) eqn:E; [reflexivity|].
-    replace (len - zlen b1) with 0 by lia. change (zrepeat 255 0) with (@nil Z). rewrite app_nil_r. reflexivity. }
-  rewrite Eb2. rewrite Lv.
-  replace (len <? 40) with false by lia. replace (len <? 60) with false by lia.
-  change (false && bytes_eqb g FFS2) with false. cbv iota.
-  (* the three header writes *)
-  set (A32 := zero ++ g).
-  set (A50 := A32 ++ le_enc 8 len ++ [95; 70; 86; 72] ++ le_enc 4 attrs ++ le_enc 2 72).
-  set (A56 := A50 ++ le_enc 2 ck ++ le_enc 2 0 ++ [reserved; rev]).
-  set (R56 := le_enc 4 bsize ++ zrepeat 0 8 ++ tail).
-  assert (L32 : zlen A32 = 32) by (unfold A32; rewrite zlen_app, Lz, Lg; reflexivity).
-  assert (L50 : zlen A50 = 50) by (unfold A50; rewrite !zlen_app, L32, le8', le4', le2'; reflexivity).
-  assert (L56 : zlen A56 = 56) by (unfold A56; rewrite !zlen_app, L50, !le2'; reflexivity).
-  assert (E32 : hdr ++ tail = A32 ++ le_enc 8 len ++
-                  ([95; 70; 86; 72] ++ le_enc 4 attrs ++ le_enc 2 72 ++ le_enc 2 ck ++ le_enc 2 0 ++
-                   [reserved; rev] ++ le_enc 4 count ++ R56)).
-  { unfold hdr, fv_header, A32, R56. rewrite <- !app_assoc. reflexivity. }
-  assert (E56 : hdr ++ tail = A56 ++ le_enc 4 count ++ R56).
-  { unfold hdr, fv_header, A56, A50, A32, R56. rewrite <- !app_assoc. reflexivity. }
-  assert (E50 : forall c, fv_header zero g len attrs c reserved rev count bsize ++ tail =
-                          A50 ++ le_enc 2 c ++ (le_enc 2 0 ++ [reserved; rev] ++ le_enc 4 count ++ R56)).
-  { intros c. unfold fv_header, A50, A32, R56. rewrite <- !app_assoc. reflexivity. }
-  assert (S32 : splice 32 (le_enc 8 len) (hdr ++ tail) = hdr ++ tail).
-  { rewrite E32 at 1. rewrite <- L32. rewrite splice_mid by reflexivity. symmetry. exact E32. }
-  rewrite S32. rewrite ?Lv. replace (len <? 60) with false by lia. cbv beta iota.
-  assert (S56 : splice 56 (le_enc 4 count) (hdr ++ tail) = hdr ++ tail).
-  { rewrite E56 at 1. rewrite <- L56. rewrite splice_mid by reflexivity. symmetry. exact E56. }
-  rewrite S56.
-  assert (S50 : splice 50 [0; 0] (hdr ++ tail) =
-                fv_header zero g len attrs 0 reserved rev count bsize ++ tail).
-  { unfold hdr. rewrite (E50 ck), (E50 0). rewrite <- L50.
-    change [0; 0] with (le_enc 2 0) at 1. apply splice_mid. rewrite !le2'. reflexivity. }
-  rewrite S50.
-  set (hdr0 := fv_header zero g len attrs 0 reserved rev count bsize).
-  assert (Lh0 : zlen hdr0 = 72) by (apply zlen_fv_header; auto).
-  rewrite slice_ok by (rewrite ?zlen_app, ?Lh0; pose proof (zlen_nonneg tail); lia).
-  change (72 - 0) with 72.
-  assert (Esl0 : sub 0 72 (hdr0 ++ tail) = hdr0) by (apply sub_app_here; exact Lh0).
-  rewrite Esl0.
-  change (Z.even 72) with true. cbn [negb]. cbv iota.
-  change ((0 - sum16 hdr0) mod 65536) with ck.
-  assert (S50' : splice 50 (le_enc 2 ck) (hdr0 ++ tail) = hdr ++ tail).
-  { unfold hdr0, hdr. rewrite (E50 0), (E50 ck). rewrite <- L50. apply splice_mid. rewrite !le2'. reflexivity. }
-  rewrite S50'. cbn [bind]. cbv beta iota. cbn [bind fst snd].
-  eexists; eexists. split; [reflexivity|exact Epol].
+  intros. unfold vol_bytes. apply vol_ok_files_x; auto.
+  - reflexivity.
+  - left; split; reflexivity.
+Qed.
+
+
+(* ---------- files in the FFSv3 large form (32-byte header, 64-bit size) ---------- *)
+
+Lemma zlen_raw_file_large g ckh ckf t attr state body : zlen g = 16 ->
+  zlen (raw_file_bytes_large g ckh ckf t attr state body) = 32 + zlen body.
+Proof.
+  intros Lg. unfold raw_file_bytes_large. rewrite !zlen_app, le3, le8', Lg.
+  change (zlen [ckh; ckf; t; attr]) with 4. change (zlen [state]) with 1. lia.
+Qed.
+
+Lemma raw_file_large_as_raw g ckh ckf t attr state body :
+  raw_file_bytes_large g ckh ckf t attr state body =
+  g ++ [ckh; ckf; t; attr] ++ le_enc 3 16777215 ++ [state] ++ (le_enc 8 (32 + zlen body) ++ body).
+Proof. reflexivity. Qed.
+
+Lemma raw_file_large_fields g ckh ckf t attr state body rest :
+  zlen g = 16 -> 32 + zlen body < 2 ^ 64 ->
+  let b := raw_file_bytes_large g ckh ckf t attr state body ++ rest in
+  sub 0 16 b = g /\ rd 16 1 b = ckh /\ rd 17 1 b = ckf /\ rd 18 1 b = t /\ rd 19 1 b = attr /\
+  rd 20 3 b = 16777215 /\ rd 23 1 b = state /\ rd 24 8 b = 32 + zlen body.
+Proof.
+  intros Lg Hn b. unfold b, raw_file_bytes_large. rewrite <- !app_assoc.
+  pose proof (zlen_nonneg body).
+  repeat split.
+  - apply sub_app_here; auto.
+  - rewrite (rd_app_skip _ _ 16 1 16) by (auto; lia). change (16 - 16) with 0.
+    cbn [app]. apply rd_cons_here.
+  - rewrite (rd_app_skip _ _ 17 1 16) by (auto; lia). change (17 - 16) with 1. cbn [app].
+    rewrite rd_cons_skip by lia. apply rd_cons_here.
+  - rewrite (rd_app_skip _ _ 18 1 16) by (auto; lia). change (18 - 16) with 2. cbn [app].
+    rewrite !rd_cons_skip by lia. apply rd_cons_here.
+  - rewrite (rd_app_skip _ _ 19 1 16) by (auto; lia). change (19 - 16) with 3. cbn [app].
+    rewrite rd_cons_skip by lia. change (3 - 1) with 2. rewrite rd_cons_skip by lia.
+    change (2 - 1) with 1. rewrite rd_cons_skip by lia. apply rd_cons_here.
+  - rewrite (rd_app_skip _ _ 20 3 16) by (auto; lia). change (20 - 16) with 4. cbn [app].
+    rewrite rd_cons_skip by lia. change (4 - 1) with 3. rewrite rd_cons_skip by lia.
+    change (3 - 1) with 2. rewrite rd_cons_skip by lia. change (2 - 1) with 1.
+    rewrite rd_cons_skip by lia. change (1 - 1) with 0.
+    rewrite rd_app_here by apply le3. apply le_dec_enc. change (256 ^ Z.of_nat 3) with 16777216. lia.
+  - rewrite (rd_app_skip _ _ 23 1 16) by (auto; lia). change (23 - 16) with 7. cbn [app].
+    rewrite rd_cons_skip by lia. change (7 - 1) with 6. rewrite rd_cons_skip by lia.
+    change (6 - 1) with 5. rewrite rd_cons_skip by lia. change (5 - 1) with 4.
+    rewrite rd_cons_skip by lia. change (4 - 1) with 3.
+    rewrite (rd_app_skip _ _ 3 1 3) by (try apply le3; lia). change (3 - 3) with 0.
+    apply rd_cons_here.
+  - rewrite (rd_app_skip _ _ 24 8 16) by (auto; lia). change (24 - 16) with 8. cbn [app].
+    rewrite rd_cons_skip by lia. change (8 - 1) with 7. rewrite rd_cons_skip by lia.
+    change (7 - 1) with 6. rewrite rd_cons_skip by lia. change (6 - 1) with 5.
+    rewrite rd_cons_skip by lia. change (5 - 1) with 4.
+    rewrite (rd_app_skip _ _ 4 8 3) by (try apply le3; lia). change (4 - 3) with 1.
+    rewrite rd_cons_skip by lia. change (1 - 1) with 0.
+    rewrite rd_app_here by apply le8'. apply le_dec_enc. change (256 ^ Z.of_nat 8) with (2 ^ 64). lia.
+Qed.
+
+Lemma bytes_ok_raw_file_large g ckh ckf t attr state body :
+  bytes_ok g = true -> 0 <= ckh < 256 -> 0 <= ckf < 256 -> 0 <= t < 256 -> 0 <= attr < 256 ->
+  0 <= state < 256 -> bytes_ok body = true ->
+  bytes_ok (raw_file_bytes_large g ckh ckf t attr state body) = true.
+Proof.
+  intros Og Hh Hf Ht Ha Hs Ob. unfold raw_file_bytes_large. rewrite !bytes_ok_app, !le_enc_ok, Og, Ob.
+  cbn [bytes_ok forallb]. unfold byte_ok. lia.
+Qed.
+
+(* a file in the large form whose content fiano keeps as it is (a type it does not decompose, or no
+   body): the 64-bit size is the file's extent, nothing is rebuilt.  No bound on the size below
+   2^64 - 1 (the value the parser reads as erased space) *)
+Lemma file_ok_opaque_large g ckh ckf t attr state body :
+  zlen g = 16 -> bytes_ok g = true -> 0 <= ckh < 256 -> 0 <= ckf < 256 -> 0 <= t < 256 ->
+  0 <= attr < 256 -> 0 <= state < 256 -> bytes_ok body = true -> 32 + zlen body < 2 ^ 64 - 1 ->
+  (t =? 1) && bytes_eqb g NVAR_GUID = false ->
+  (supported_file t = false \/ body = []) ->
+  file_ok (raw_file_bytes_large g ckh ckf t attr state body).
+Proof.
+  intros Lg Og Hh Hf Ht Ha Hs Ob Hn Hnv Hop. pose proof (zlen_nonneg body) as Hb.
+  set (fb := raw_file_bytes_large g ckh ckf t attr state body).
+  assert (Lf : zlen fb = 32 + zlen body) by (apply zlen_raw_file_large; auto).
+  split; [apply bytes_ok_raw_file_large; auto|]. split; [lia|].
+  exists 1%nat. intros d Hd rest. destruct d as [|d]; [lia|].
+  rewrite parse_file_S.
+  destruct (raw_file_large_fields g ckh ckf t attr state body rest Lg ltac:(lia))
+    as (F0 & F16 & F17 & F18 & F19 & F20 & F23 & F24).
+  fold fb in F0, F16, F17, F18, F19, F20, F23, F24.
+  destruct (raw_file_large_fields g ckh ckf t attr state body [] Lg ltac:(lia)) as (_ & _ & _ & _ & F19' & _).
+  fold fb in F19'. rewrite app_nil_r in F19'.
+  pose proof (zlen_nonneg rest) as Hr.
+  unfold file_body. rewrite !zlen_app, Lf.
+  replace (32 + zlen body + zlen rest <? 24) with false by lia.
+  rewrite F0, F16, F17, F18, F19, F20, F23, F24.
+  change (16777215 =? 16777215) with true. cbv iota.
+  replace (32 + zlen body + zlen rest <? 32) with false by lia. cbn [bind andb].
+  replace (32 + zlen body =? U64 - 1) with false by (unfold U64; lia).
+  replace (32 + zlen body + zlen rest <? 32 + zlen body) with false by lia.
+  replace (32 + zlen body <? 32) with false by lia.
+  rewrite Hnv. cbn [bind].
+  rewrite <- Lf. rewrite (sub_app_here fb rest (zlen fb) eq_refl). rewrite Lf.
+  assert (Easm : forall h, f_nvar h = None ->
+            asm (NFile h fb []) (255, false) = Ok (NFile h fb [], (255, false))).
+  { intros h Hv. rewrite asm_NFile. cbn [Ffs.asm_elems bind]. unfold file_asm. rewrite Hv. reflexivity. }
+  destruct (supported_file t) eqn:Sup; cbn [negb].
+  - destruct Hop as [Hop|Hop]; [discriminate|]. subst body.
+    change (zlen (@nil Z)) with 0 in *. change (32 + 0) with 32 in *.
+    change (Z.to_nat 32 + 1)%nat with 33%nat.
+    rewrite sections_loop_done by lia.
+    cbn [bind].
+    eexists; eexists. split; [reflexivity|]. cbn [f_ext f_attr].
+    split; [lia|]. split; [symmetry; exact F19'|].
+    eexists; eexists. split; [apply Easm; reflexivity|reflexivity].
+  - eexists; eexists. split; [reflexivity|]. cbn [f_ext f_attr].
+    split; [lia|]. split; [symmetry; exact F19'|].
+    eexists; eexists. split; [apply Easm; reflexivity|reflexivity].
 Qed.
 
 (* ---------- R6: firmware-volume-image sections (nesting) ---------- *)
@@ -1672,11 +1895,11 @@ Proof.
 Qed.
 
 (* a volume built by the grammar carries the signature at offset 40 *)
-Lemma vol_bytes_sig zero g attrs reserved rev count bsize files free :
+Lemma vol_bytes_sig zero g attrs reserved rev count bsize more eo ext files free :
   zlen zero = 16 -> zlen g = 16 ->
-  sub 40 4 (vol_bytes zero g attrs reserved rev count bsize files free) = FVH.
+  sub 40 4 (vol_bytes_x zero g attrs reserved rev count bsize more eo ext files free) = FVH.
 Proof.
-  intros Lz Lg. unfold vol_bytes, fv_header. rewrite <- !app_assoc.
+  intros Lz Lg. unfold vol_bytes_x, fv_header. rewrite <- !app_assoc.
   rewrite (sub_app_skip _ _ 40 4 16) by (auto; lia). change (40 - 16) with 24.
   rewrite (sub_app_skip _ _ 24 4 16) by (auto; lia). change (24 - 16) with 8.
   rewrite (sub_app_skip _ _ 8 4 8) by (try apply le8'; lia). change (8 - 8) with 0.
